@@ -1466,8 +1466,12 @@ class ForAll(BinaryOperator):
     @lru_cache(maxsize=None)
     def condition_unique_variable_ids(self) -> List[int]:
         # literals and predicates are functions of the other variables, they are not bound by the universal statement
-        return [v.id_ for v in self.condition._unique_variables_.difference(self.left._unique_variables_)
-                if not isinstance(v.value, Literal) and not getattr(v.value, "_predicate_type_", None)]
+        ids = [v.id_ for v in self.condition._unique_variables_.difference(self.left._unique_variables_)
+               if not isinstance(v.value, Literal) and not getattr(v.value, "_predicate_type_", None)]
+        # a flattened expression of the condition (that is not part of the universal expression) has one element per row
+        # like a variable has one value, the statement has to hold for that element
+        universal = self._ids_of_flattened_expressions_(self.left)
+        return ids + [i for i in self._ids_of_flattened_expressions_(self.condition) if i not in universal]
 
     @lru_cache(maxsize=None)
     def _required_variables_from_child_(self, child: Optional[SymbolicExpression] = None, when_true: bool = True):
